@@ -246,6 +246,7 @@ def check_property(prop, tier, seed):
             "by_solver": pf_summary.get("by_solver", {}),
             "obligation_list": [{"id": o["id"], "status": o["status"], "solver": o.get("solver"), "time": round(o.get("time", 0), 3)} for o in obs],
             "mutants": pf_summary.get("mutants"),
+            "contracts_verified_under_another_property": pf_summary.get("depends_on", []),
             "extraction_drops": pf_summary.get("extraction_drops", []),
         })
         ev["assumptions"] = sorted(set(ev["assumptions"]) | set(pf_summary.get("assumptions", [])))
